@@ -498,9 +498,10 @@ class Gen:
             self._line_start = len(self.p.toks)
         self.oneline += 1
         saved_si = self._si_blk
-        self._si_blk = self.blk
+        self._si_blk = -9        # no one-line if inside the condition (e.g. in the body of a function literal there)
         i = self.kw(b'if')
         cond = self.paren(d + 1)
+        self._si_blk = self.blk  # a nested one-line if may only end the body / else body itself
         # body: 1-2 statements on the line; the block generator honours self.oneline
         # picotool reads `if (c) do` as `if (c) then` (a deliberate loophole), so a short-if body that starts
         # with a do-block is only generated on request
